@@ -149,7 +149,7 @@ func (t *terminal) ptyReadOne(gr *GraphemeReader) error {
 		t.WithLock(func() {
 			if *debugCmd || *debugTodo {
 				var cmdBytes bytes.Buffer
-				cmdReader := &captureReader{r: gr, buf: &cmdBytes}
+				cmdReader := &captureReader{r: lockReleasingReader{t: t, r: gr}, buf: &cmdBytes}
 				success := t.handleCommand(cmdReader)
 				cmd := cmdBytes.Bytes()
 
@@ -159,7 +159,7 @@ func (t *terminal) ptyReadOne(gr *GraphemeReader) error {
 					debugPrintf(debugTodo, "TODO: Unhandled command: %#v\n", string(cmd))
 				}
 			} else {
-				_ = t.handleCommand(gr)
+				_ = t.handleCommand(lockReleasingReader{t: t, r: gr})
 			}
 		})
 
@@ -176,6 +176,25 @@ func (t *terminal) ptyReadOne(gr *GraphemeReader) error {
 type escapeReader interface {
 	ReadByte() (byte, error)
 	// Buffered() int
+}
+
+// lockReleasingReader feeds a command handler that runs under the terminal
+// lock. The handlers read their whole sequence before they change anything,
+// so the lock is given up whenever the next byte has yet to arrive: an
+// application that pauses in the middle of a sequence must not block
+// everyone else out of the terminal.
+type lockReleasingReader struct {
+	t *terminal
+	r *GraphemeReader
+}
+
+func (l lockReleasingReader) ReadByte() (byte, error) {
+	if l.r.Buffered() > 0 {
+		return l.r.ReadByte()
+	}
+	l.t.Unlock()
+	defer l.t.Lock()
+	return l.r.ReadByte()
 }
 
 type captureReader struct {
